@@ -220,6 +220,8 @@ def proto_expr(draw: Any, msgs: list[Any], subs: list[str], depth: int) -> Any:
     body = draw(proto_expr(msgs, subs, depth - 1))
     if k in ("opt", "star", "plus"):
         return [k, body]
+    if draw(st.integers(0, 3)) == 0:
+        return ["rep", body, draw(st.integers(0, 3)), None]  # {n,}
     lo = draw(st.integers(0, 2))
     hi = lo + draw(st.integers(0, 2))
     return ["rep", body, lo, max(hi, 1)]
@@ -320,6 +322,8 @@ def render(proto: dict[str, Any]) -> str:
         x = r(n[1])
         if n[1][0] in ("opt", "star", "plus", "rep"):
             x = f"({x})"
+        if n[3] is None:
+            return x + f"{{{n[2]},}}"
         return x + (f"{{{n[2]}}}" if n[2] == n[3] else f"{{{n[2]},{n[3]}}}")
 
     lines = [f"<{name}> ::= {r(rhs, top=True)}" for name, rhs in proto["rules"]]
@@ -442,7 +446,7 @@ def check_case(case: dict[str, Any], ctx: Any = None) -> list[str]:
 
 
 def run_shard(ctx: Any) -> None:
-    n = 25 if ctx.tier == "quick" else 1500
+    n = 60 if ctx.tier == "quick" else 1500
     depth = 5 if ctx.tier == "quick" else 7
 
     @given(protocols())
